@@ -131,6 +131,66 @@ def alpha(text):
     return "".join(_GENERATED_NAME.sub(sub, text).split())  # layout (line breaks chosen by the formatters) is not compared
 
 
+# ---- requests that share one user-supplied `parameters` dict (Context keeps the caller's dict by reference)
+SHARED_PARAMS = {"verif_shared_parameters": 1}
+
+
+def shared_params_generate(fa, reqs, params):
+    """texts of the requests, every Context constructed with the SAME dict object `params`"""
+    out = []
+    for req in reqs:
+        tname, fname, i = req
+        target = getattr(fa.targets, tname)
+        with quiet():
+            try:
+                atypes = target.trace_arguments[fname][i]
+                enable_alt, dct = (True, "FloatType") if tname == "xla_client" else (False, None)
+                ctx = fa.Context(paths=[fa.algorithms], enable_alt=enable_alt, default_constant_type=dct, parameters=params)
+                graph = ctx.trace(getattr(fa.algorithms, fname), *atypes).implement_missing(target).simplify()
+                graph.props.update(name=f"{fname}_{i}")
+                out.append(graph.tostring(target))
+            except NotImplementedError as e:
+                out.append(f"!NotImplementedError: {e}")
+            except Exception as e:
+                out.append(f"!{type(e).__name__}: {e}")
+    return out
+
+
+# ---- user definitions registered in the global definition registry between requests
+def _user_real_tan(ctx, z):
+    return ctx.sin(z) / ctx.cos(z) + z * 0
+
+
+def _user_real_square(ctx, x):
+    ax = abs(x)
+    return ctx(ax * ax)
+
+
+USER_DEFS = {"tan": ("real", _user_real_tan, "numpy", ":float32"), "square": ("real", _user_real_square, "python", ":float")}
+
+
+def registry_history(fa, name, events):
+    """events: list of "reg" / "gen"; returns the texts of the "gen" events"""
+    domain, func, tname, atype = USER_DEFS[name]
+    target = getattr(fa.targets, tname)
+    out = []
+    for ev in events:
+        if ev == "reg":
+            with quiet():
+                fa.algorithms.definition(name, domain=domain)(func)
+        else:
+            with quiet():
+                try:
+                    ctx = fa.Context(paths=[fa.algorithms])
+                    g = ctx.trace(getattr(fa.algorithms, name), atype).implement_missing(target).simplify()
+                    out.append(g.tostring(target))
+                except NotImplementedError as e:
+                    out.append(f"!NotImplementedError: {e}")
+                except Exception as e:
+                    out.append(f"!{type(e).__name__}: {e}")
+    return out
+
+
 def extra_requests(fa):
     """requests beyond the five trace_arguments tables: the lax table, the apmath->lax generator entries, synthetic definitions."""
     out = [r for r in requests(fa, ["lax"])]
@@ -157,7 +217,11 @@ def _build_extra(fa, req):
         name, args, kwargs = APMATH_LAX[i]
         ctx = fa.Context(paths=[fa.apmath_algorithms], parameters=dict(dtypes=[numpy.float64, numpy.float32, numpy.float16]))
         graph = ctx.trace(getattr(fa.apmath, name), *args, **kwargs)
-        return graph.rewrite(target, fa.rewrite, fa.rewrite), target  # exactly as tools/generate_apmath_lax.py
+        doc = graph.props.get("__doc__")
+        graph = graph.rewrite(target, fa.rewrite, fa.rewrite)  # exactly as tools/generate_apmath_lax.py
+        if doc is not None:
+            graph.props.update(__doc__=doc)  # (the tool re-attaches the docstring, which the lax printer emits)
+        return graph, target
     func, nargs = SYN[fname[4:]]
     t = SYN_TYPES[tname][i]
     enable_alt, dct = (True, "FloatType") if tname == "xla_client" else (False, None)
